@@ -20,6 +20,8 @@ with open(os.path.join(V, "seeded", "RESULTS.md"), "w") as f:
             "comes with a demonstration test (fails with the change, passes without) and was confirmed and run against the property's check by tools/eval_seed.py.\n\n"
             "| seed | property | change | needs | caught by | first rule |\n|---|---|---|---|---|---|\n")
     for r in rows: f.write("| " + " | ".join(r) + " |\n")
-    n = len(rows); d = sum(1 for r in rows if r[4] != "NOT DETECTED")
-    f.write(f"\n{d} of {n} detected.\n")
+    sup = sum(1 for r in rows if r[4].startswith("n/a"))
+    n = len(rows) - sup; d = sum(1 for r in rows if r[4] != "NOT DETECTED" and not r[4].startswith("n/a"))
+    cross = sum(1 for r in rows if r[4] not in ("quick", "thorough", "NOT DETECTED") and not r[4].startswith("n/a"))
+    f.write(f"\n{d} of {n} applicable seeds detected ({cross} of them by a sibling property's check, see also_caught_by in meta.json); {sup} superseded.\n")
 print(len(rows), "seeds")
